@@ -183,6 +183,73 @@ FILES = {
 }
 
 
+def dispatch():
+    """Tetl/C14/GenDispatch.lean: the driver's access to the generated functions by (operation, type name) — the names
+    are those of the job set BITS_JOBS of gen/translate.py; `none` = no generated counterpart for this line"""
+    names = [n for n, _, _ in TYPES]
+    uns = [n for n, _, s in TYPES if not s]
+    L = ["""/-
+C14, tie T — access to the GENERATED kernels (Tetl/C14/Gen.lean) by operation and type name, for the `!gen=` cross-check of
+the driver.  WRITTEN by gen/c14_genprops.py from the fixed job names of gen/translate.py (BITS_JOBS).  A result is the text
+the hand model prints for the same value; "ub" when the generated undefined-behaviour obligation is false.
+-/
+import Tetl.C14.Gen
+namespace Tetl.C14.GenDispatch
+open Tetl.C14
+
+def g (ok : Bool) (v : String) : String := if ok then v else "ub"
+def sb (x : Bool) : String := if x then "1" else "0"
+"""]
+
+    def fn(name, params, arms):
+        L.append("def %s (ty : String) %s : Option String :=\n  match ty with\n%s  | _ => none\n"
+                 % (name, params, "".join("  | \"%s\" => some (%s)\n" % (k, v) for k, v in arms)))
+
+    un_int = {"bit_width": uns, "bit_ceil": uns, "bit_floor": uns, "abs": names,
+              "byteswap_fb": ["u16", "u32", "u64"]}
+    gname = {"byteswap_fb": "byteswap_fallback"}
+    for op, tys in un_int.items():
+        f = gname.get(op, op)
+        fn("u_" + op, "(a : Int)", [(t, "g (Gen.%s_%s_ub a) (toString (Gen.%s_%s a))" % (f, t, f, t)) for t in tys])
+    fn("u_has_single_bit", "(a : Int)", [(t, "g (Gen.has_single_bit_%s_ub a) (sb (Gen.has_single_bit_%s a))" % (t, t)) for t in uns])
+    bin_int = {"rotl": uns, "rotr": uns, "set_bit": uns, "reset_bit": uns, "flip_bit": uns, "add_sat": names,
+               "div_sat": names, "midpoint": names}
+    for op, tys in bin_int.items():
+        fn("b_" + op, "(a y : Int)", [(t, "g (Gen.%s_%s_ub a y) (toString (Gen.%s_%s a y))" % (op, t, op, t)) for t in tys])
+    fn("b_test_bit", "(a y : Int)", [(t, "g (Gen.test_bit_%s_ub a y) (sb (Gen.test_bit_%s a y))" % (t, t)) for t in uns])
+    for v in ("true", "false"):
+        fn("b_set_bit_" + ("1" if v == "true" else "0"), "(a y : Int)",
+           [(t, "g (Gen.set_bit_to_%s_ub a y %s) (toString (Gen.set_bit_to_%s a y %s))" % (t, v, t, v)) for t in uns])
+    six = ["cmp_equal", "cmp_not_equal", "cmp_less", "cmp_greater", "cmp_less_equal", "cmp_greater_equal"]
+    for t in names:
+        fn("p_cmp_" + t, "(a y : Int)",
+           [(u, "g (%s) (String.join [%s])" % (" && ".join("Gen.%s_%s_%s_ub a y" % (f, t, u) for f in six),
+                                             ", ".join("sb (Gen.%s_%s_%s a y)" % (f, t, u) for f in six))) for u in names])
+        fn("p_saturate_cast_" + t, "(a : Int)",
+           [(u, "g (Gen.saturate_cast_%s_%s_ub a) (toString (Gen.saturate_cast_%s_%s a))" % (t, u, t, u)) for u in names])
+        fn("p_in_range_" + t, "(a : Int)",
+           [(u, "g (Gen.in_range_%s_%s_ub a) (sb (Gen.in_range_%s_%s a))" % (t, u, t, u)) for u in names])
+    L.append("def p_cmp (t u : String) (a y : Int) : Option String :=\n  match t with\n"
+             + "".join("  | \"%s\" => p_cmp_%s u a y\n" % (t, t) for t in names) + "  | _ => none\n")
+    for op in ("saturate_cast", "in_range"):
+        L.append("def p_%s (t u : String) (a : Int) : Option String :=\n  match t with\n" % op
+                 + "".join("  | \"%s\" => p_%s_%s u a\n" % (t, op, t) for t in names) + "  | _ => none\n")
+    L.append("""/-- the generated counterpart of one evaluation of the driver (`t`, `u`: the type names of the case line) -/
+def eval (op t : String) (u : Option String) (a : Int) (b : Option Int) : Option String :=
+  match op, b, u with
+""" + "".join("  | \"%s\", none, none => u_%s t a\n" % (op, op) for op in list(un_int) + ["has_single_bit"])
+             + "".join("  | \"%s\", some y, none => b_%s t a y\n" % (op, op)
+                       for op in list(bin_int) + ["test_bit", "set_bit_1", "set_bit_0"])
+             + """  | "cmp", some y, some u => p_cmp t u a y
+  | "saturate_cast", none, some u => p_saturate_cast t u a
+  | "in_range", none, some u => p_in_range t u a
+  | _, _, _ => none
+
+end Tetl.C14.GenDispatch
+""")
+    return "\n".join(L)
+
+
 def main():
     root = os.path.join(os.path.dirname(os.path.abspath(__file__)), "..", "lean", "TetlProofs", "C14")
     for name, (what, imp, fn) in FILES.items():
@@ -197,3 +264,8 @@ def main():
 
 if __name__ == "__main__":
     main()
+    dpath = os.path.join(os.path.dirname(os.path.abspath(__file__)), "..", "lean", "Tetl", "C14", "GenDispatch.lean")
+    if "--write" in sys.argv:
+        open(dpath, "w").write(dispatch())
+    else:
+        print("GenDispatch: %s" % ("up to date" if os.path.exists(dpath) and open(dpath).read() == dispatch() else "DIFFERS"))
